@@ -74,6 +74,8 @@ func (v *PointerSchema) process(ctx *p.SchemaCtx) {
 			return
 		}
 		ctx.Data = val
+		// the wrapped schema must see the decoded provider, not the factory: a request body can be read only once
+		subCtx.Data = val
 	}
 	// End of messy code
 
